@@ -340,8 +340,13 @@ def e2e(tier: str, seed: int, what: str) -> CompResult:
 
 def check_warnings(res: CompResult, dist: dict[str, Any], base: dict[str, Any], ops: list[str], label: str) -> None:
     """C14 end to end: the warnings recorded on the controller equal those of the single-process run"""
+    lg = "loadgroup" in dist["args"]
+
+    def nid(x: str) -> str:
+        return x.rsplit("@", 1)[0] if lg and "@" in x.rsplit("]", 1)[-1] else x     # documented "@<group>" tag of loadgroup
+
     def ws(r: dict[str, Any]) -> Counter:
-        return Counter((x["category"], x["message"], x["filename"], x["lineno"], x["nodeid"]) for x in r["records"]
+        return Counter((x["category"], x["message"], x["filename"], x["lineno"], nid(x["nodeid"])) for x in r["records"]
                        if x["k"] == "warning" and x["side"] == "ctl" and x["filename"].startswith("test_"))
 
     a, b = ws(dist), ws(base)
